@@ -30,7 +30,8 @@ MODS = (("search", search), ("cachedsearch", cachedsearch))
 def gen_cfg(rng, prop, tier):
     cfg = struct.gen_cfg(rng, "C02", tier)
     cfg["prop"] = "C14"
-    menu = rng.choice((("HNode",), ("HAny",), ("HNode", "HAny", "HMix"), ("HLight",), ("HLightDict",)))
+    menu = rng.choice((("HNode",), ("HAny",), ("HNode", "HAny", "HMix"), ("HLight",), ("HLightDict",),
+                       ("HNodeBag",), ("HNodeNo",), ("HLightNo", "HLight"), ("HNodeEq",)))
     cfg["menu"] = list(menu)
     cfg["family"] = FAMILY[menu[0]]
     cfg["classes"] = [rng.choice(menu) for _ in cfg["classes"]]
@@ -40,8 +41,9 @@ def gen_cfg(rng, prop, tier):
     cfg["L"] = rng.randint(4, 30)
     cfg["q_rate"] = rng.choice((0.4, 0.6, 0.8))
     cfg["a_rate"] = rng.choice((0.1, 0.2, 0.3))
+    cfg["attrs"] = list(ATTRS) + (["foo.bar"] if cfg["family"] == "node" and rng.random() < 0.3 else [])
     cfg["init_attrs"] = [
-        {k: rng.choice((0, 1, 2, "a", None)) for k in ATTRS if rng.random() < 0.5} for _ in cfg["classes"]
+        {k: rng.choice((0, 1, 2, "a", None)) for k in cfg["attrs"] if rng.random() < 0.5} for _ in cfg["classes"]
     ]
     return cfg
 
@@ -71,7 +73,7 @@ def ref_preorder(snap, start, admit_filter, stopset, maxlevel):
     return out
 
 
-def gen_query(rng, world, snap, attrs, qid):
+def gen_query(rng, world, snap, attrs, qid, names=ATTRS):
     n = len(snap)
     fn = rng.choice(("findall", "findall", "find", "findall_by_attr", "find_by_attr"))
     q = {"op": "q", "id": qid, "fn": fn, "s": rng.randrange(n), "ml": rng.choice((None, None, None, 0, 1, 2, 3, -1))}
@@ -83,12 +85,12 @@ def gen_query(rng, world, snap, attrs, qid):
         if r < 0.4:
             q["f"] = ["idx", sorted(i for i in range(n) if rng.random() < 0.5)]
         elif r < 0.8:
-            q["f"] = ["attr", rng.choice(ATTRS + ("name",)), rng.choice((0, 1, 2, "a", "n1", None))]
+            q["f"] = ["attr", rng.choice(tuple(names) + ("name",)), rng.choice((0, 1, 2, "a", "n1", None))]
         else:
             q["f"] = None
         q["stop"] = sorted(i for i in range(n) if rng.random() < 0.2) if rng.random() < 0.4 else None
     else:
-        q["name"] = rng.choice(ATTRS + ("name", "nope"))
+        q["name"] = rng.choice(tuple(names) + ("name", "nope"))
         q["value"] = rng.choice((0, 1, 2, "a", "n0", "n1", "n2", None))
         q["dflt"] = rng.random() < 0.3 and q["name"] == "name"
     q["pos"] = rng.choice((0, 0, 1, 2, 3))
@@ -198,11 +200,11 @@ def run(cfg, ops=None, rng=None):
                     if queries and rng.random() < 0.55:
                         op = dict(rng.choice(queries))
                     else:
-                        op = gen_query(rng, world, snap, attrs, len(queries))
+                        op = gen_query(rng, world, snap, attrs, len(queries), cfg.get("attrs", ATTRS))
                         queries.append(op)
                 elif r < cfg["q_rate"] + cfg["a_rate"]:
                     i = rng.randrange(n)
-                    k = rng.choice(ATTRS)
+                    k = rng.choice(cfg.get("attrs", ATTRS))
                     if k in attrs[i] and rng.random() < 0.3:
                         op = {"op": "delattr", "n": i, "k": k}
                     else:
